@@ -237,15 +237,18 @@ Definition read_var (r : env) (x : nat) : res val :=
 
 Definition write_var (r : env) (x : nat) (v : option val) : env := set_nth r x v.
 
-(* assignment through an evaluated target *)
-Definition assign_path (r : env) (x : nat) (p : list step) (nv : val) : res env :=
-  let* root := read_var r x in
-  match rev p with
-  | [] => Ok (write_var r x (Some nv))
-  | last :: pre_rev =>
-    let* root' := upd_path root (rev pre_rev) (set_last last nv) in
+(* assignment through an evaluated target: prefix path to the container and the last step *)
+Definition assign_path (r : env) (x : nat) (q : list step) (last : option step) (nv : val) : res env :=
+  match last with
+  | None => Ok (write_var r x (Some nv))
+  | Some l =>
+    let* root := read_var r x in
+    let* root' := upd_path root q (set_last l nv) in
     Ok (write_var r x (Some root'))
   end.
+
+Definition full_path (q : list step) (last : option step) : list step :=
+  match last with Some l => q ++ [l] | None => q end.
 
 Definition append_path (r : env) (x : nat) (p : list step) (nv : val) : res env :=
   let* root := read_var r x in
@@ -433,19 +436,20 @@ Section interp.
       end
     end
   (* evaluate the sub-expressions of an assignment target: root variable and access path *)
-  with eval_target (n : nat) (g : target) (r : env) {struct n} : res (nat * list step * env) :=
+  with eval_target (n : nat) (g : target) (r : env) {struct n}
+    : res (nat * list step * option step * env) :=
     match n with
     | O => Err OutOfFuel
     | S n' =>
       match g with
-      | TgVar x => Ok (x, [], r)
+      | TgVar x => Ok (x, [], None, r)
       | TgIndex g' i =>
-        let* (x, p, r1) := eval_target n' g' r in
+        let* (x, q, l, r1) := eval_target n' g' r in
         let* (vi, r2) := eval n' i r1 in
-        Ok (x, p ++ [PIdx vi], r2)
+        Ok (x, full_path q l, Some (PIdx vi), r2)
       | TgMember g' f =>
-        let* (x, p, r1) := eval_target n' g' r in
-        Ok (x, p ++ [PMem f], r1)
+        let* (x, q, l, r1) := eval_target n' g' r in
+        Ok (x, full_path q l, Some (PMem f), r1)
       end
     end
   with exec (n : nat) (s : stmt) (r : env) {struct n} : res (outcome * env) :=
@@ -458,25 +462,27 @@ Section interp.
         let* w := transfer_check v tv tg in
         Ok (ONormal, r1 ++ [Some w])
       | SAssign g e tv tg =>
-        let* (x, p, r1) := eval_target n' g r in
+        let* (x, q, l, r1) := eval_target n' g r in
         (* the getter chain of the target runs before the value is evaluated *)
-        let* root := read_var r1 x in
-        let* _ := get_path root (removelast p) in
+        let* _ := match l with
+                  | Some _ => let* root := read_var r1 x in get_path root q
+                  | None => Ok VVoid
+                  end in
         let* (v, r2) := eval n' e r1 in
         let* w := transfer_check v tv tg in
-        let* r3 := assign_path r2 x p w in
+        let* r3 := assign_path r2 x q l w in
         Ok (ONormal, r3)
       | SSwap x y =>
         let* vx := read_var r x in
         let* vy := read_var r y in
         Ok (ONormal, write_var (write_var r x (Some vy)) y (Some vx))
       | SAppend g e tv tg =>
-        let* (x, p, r1) := eval_target n' g r in
+        let* (x, q, l, r1) := eval_target n' g r in
         let* root := read_var r1 x in
-        let* _ := get_path root p in
+        let* _ := get_path root (full_path q l) in
         let* (v, r2) := eval n' e r1 in
         let* w := transfer_check v tv tg in
-        let* r3 := append_path r2 x p w in
+        let* r3 := append_path r2 x (full_path q l) w in
         Ok (ONormal, r3)
       | SIf c b1 b2 =>
         let* (vc, r1) := eval n' c r in
